@@ -143,6 +143,10 @@ class Sym:
     def _cmp(self, other, op):
         if isinstance(other, np.ndarray):
             return NotImplemented
+        if isinstance(other, (float, np.floating)) and math.isinf(other):
+            # comparison with +-inf (e.g. np.clip(x, 0, np.inf)): same outcome for every finite real, nothing to log
+            b = float(other)
+            return {"lt": b > 0, "le": b > 0, "gt": b < 0, "ge": b < 0, "eq": False, "ne": True}[op]
         o = self.t.lift(other)
         a, b = self.v, o.v
         r = {"lt": a < b, "le": a <= b, "gt": a > b, "ge": a >= b, "eq": a == b, "ne": a != b}[op]
@@ -210,6 +214,8 @@ class NpShim:
     def _is_float_dtype(self, dtype):
         if dtype is None:
             return False
+        if getattr(dtype, "__func__", None) is NpShim.float64:
+            return True  # `np.float64` read through this shim by the traced module (dtype=np.float64)
         try:
             return np.dtype(dtype).kind == "f"
         except TypeError:
